@@ -3,7 +3,7 @@
 import json, sys
 pid, wt = sys.argv[1], sys.argv[2]
 hint = sys.argv[3] if len(sys.argv) > 3 else ""
-tpl = open('/tmp/mut/PROMPT.txt').read()
+tpl = open(__import__('os').path.join(__import__('os').path.dirname(__import__('os').path.abspath(__file__)),'mutprompt_template.txt')).read()
 for l in open('/verif/properties.jsonl'):
     p = json.loads(l)
     if p['id'] == pid:
